@@ -29,14 +29,14 @@ pub fn prop() -> Prop {
         "Async execution does not depend on the schedule",
         "Cases: the (schema, operation, variables, resolver world) cases of C26 with more mutations, times schedules of \
          pending-poll counts: one count per resolver future and per list-stream step (item or end), by order of creation. \
-         All 3^m schedules over {0,1,2} when the request creates m <= 5 futures (exhaustive sub-space, counted as \
-         sub-evaluations); otherwise the all-zero schedule plus 3 schedules over {0..3} drawn from the choice stream. \
+         All 3^m schedules over {0,1,2} when the request creates m <= 5 futures (m <= 6 in the thorough tier; exhaustive \
+         sub-space, counted as sub-evaluations); otherwise the all-zero schedule plus 3 schedules over {0..3} drawn from the choice stream. \
          Oracle: execute_async under a single-threaded poll loop equals execute_sync (data with key order, error paths \
          and messages in order, resolver call log in order); no Pending without a registered wake-up; for mutations the \
          events of one root field all precede the first event of the next. Non-trivial: at least one future was pending \
          at least once and the request made >= 2 resolver calls; distinct by operation + variables + schema + world.",
     )
-    .random("schedules", check, |t| dev_scale(if t == Tier::Quick { 40_000 } else { 1_000_000 }), |t| if t == Tier::Quick { 900 } else { 1500 })
+    .random("schedules", check, |t| dev_scale(if t == Tier::Quick { 250_000 } else { 5_000_000 }), |t| if t == Tier::Quick { 900 } else { 1500 })
     .assumptions(&[
         "the equivalent synchronous resolvers are the same resolver world served through ObjectValue; the sync run is the reference, as the property states",
         "futures wake themselves before returning Pending, so a correct executor's top-level future is always woken when it returns Pending; a Pending without a wake-up is reported as a lost wake-up",
@@ -44,8 +44,8 @@ pub fn prop() -> Prop {
     ])
 }
 
-fn opts() -> exec_ops::Opts {
-    exec_ops::Opts { mutation_p: 215, ..exec_ops::Opts::default() }
+fn opts(tier: Tier) -> exec_ops::Opts {
+    exec_ops::Opts { mutation_p: 215, ..c26::opts(tier) }
 }
 
 fn split3(bytes: &[u8]) -> (Vec<u8>, Vec<u8>, Vec<u8>) {
@@ -141,8 +141,8 @@ fn compare_runs(sync: &Observed, a: &Observed, ks: &[u8], is_mutation: bool, fai
 
 pub fn check(bytes: &[u8], ctx: &mut Ctx) -> Outcome {
     let (cb, wb, sb) = split3(bytes);
-    let case = exec_ops::case(&cb, &opts());
-    let b: Built = match c26::build_from(case, &wb, None) {
+    let case = exec_ops::case(&cb, &opts(ctx.tier));
+    let b: Built = match c26::build_from(case, &wb, None, ctx.tier) {
         Err(BuildErr::Skip(why)) => return ctx.skip(why),
         Ok(b) => b,
     };
@@ -165,6 +165,7 @@ pub fn check(bytes: &[u8], ctx: &mut Ctx) -> Outcome {
     let run = |ks: Vec<u8>| catch(|| exec::execute_async(&c.schema, &c.doc, &c.variables, &b.world, &c.root, ks));
     // the all-zero schedule also tells how many futures the request creates
     let mut m = 0usize;
+    let exhaustive_bound = if ctx.tier == Tier::Thorough { 6 } else { 5 };
     let mut total_pendings = 0usize;
     let mut schedules: Vec<Vec<u8>> = vec![vec![]];
     let mut i = 0;
@@ -196,7 +197,7 @@ pub fn check(bytes: &[u8], ctx: &mut Ctx) -> Outcome {
                     m = futures;
                     if m == 0 {
                         // nothing to schedule
-                    } else if m <= 5 {
+                    } else if m <= exhaustive_bound {
                         ctx.class(format!("schedules:exhaustive-m={}", m));
                         let total = 3usize.pow(m as u32);
                         for code in 1..total {
